@@ -68,4 +68,11 @@ var propMeta = map[string]*PropMeta{
 		Assumptions: append([]string{"one resolution of slack on both sides of the boundary, as the statement allows", "real-clock plans keep points 1 s away from the boundary because a point is processed up to ~60 ms (WAL poll) after its insert"}, commonAssumptions...),
 		Probes: []string{"probe.rejected-expired", "probe.has-expired-rows", "probe.checked-truncation", "fault.clockjump"},
 	},
+	"C15": {
+		Level: "exploration", QuickSecs: 40, ThoroughSecs: 600, Recycle: 200,
+		Rule: "one case = one seeded history interleaving inserts, forced/timer flushes, clock advances, clean restarts and table alterations (ApplySchema): random permutation of the fields, removal of a field, insertion of 0-2 new fields (incl. wide PERCENTILE fields) at random positions, and a changed or removed WHERE. Oracle = reference aggregator that tracks, per table, the WHERE in force when each point was processed and, per field, the acceptance sequence number from which the field exists: after every check point (mid-history, at the end, after a flush, after a restart on the latest definition) SELECT * must equal the model for every retained and every added field, and a single-field query must agree with the full dump. Non-trivial = at least one alteration was applied and a non-empty table was compared.",
+		Real:  realS, Stub: stubS,
+		Assumptions: append([]string{"alterations are applied at quiescent points (event layer): no entry is in flight while the definition changes", "a dropped field is never re-added with the same name and expression (the statement does not say whether its old values may come back)"}, commonAssumptions...),
+		Probes: []string{"op.alter", "site.rs.fieldUpdate", "fault.restart.clean"},
+	},
 }
